@@ -244,8 +244,9 @@ func (r *Repository) SetReferrersCapability(capable bool) error {
 
 // setReferrersState atomically loads r.referrersState.
 func (r *Repository) loadReferrersState() referrersState {
+	state := atomic.LoadInt32(&r.referrersState)
 	verifhook.Point("remote.loadReferrersState")
-	return atomic.LoadInt32(&r.referrersState)
+	return state
 }
 
 // client returns an HTTP client used to access the remote repository.
